@@ -20,12 +20,14 @@ EXPRS1 = ["-q1**2", "-(q5**2)", "2**-q0", "q0*2", "-q1", "q5/4+1", "q12**2", "2/
 EXPRS2 = ["-q0**2+q1", "q1*-q0**2", "(q1+1)/-q5**2", "q0+q1", "q0*q1-3", "q1/q0", "q0-q1*0.5", "q12*q5+q5", "(q1+q0)*(q1-q0)", "q5**2/q1", "-q0-q12", "q1*2+q0*4-q1", "q0*q12/2"]
 EXPRS3 = ["q0+2*q1-q5*0.25", "q0*q1*q5", "(q0+q1)/q5", "q12-q5+q1", "q1*q5+q0*q12", "q0/(q1*q5)"]
 FUNCS = ["sin(q0)*2", "exp(q1)+q0", "sqrt(q5)/q0"]
+# register numbers written with leading zeros, next to registers whose spelling sorts differently from their number
+ZEROS = ["q01-q5", "q5/q001+1", "q012*q5-q1", "q00-q1*2", "q05**2-q12", "q1-q012", "q010-q5"]
 
 
 def scripts(tier):
     S = []
     hdr = ["name c08", "version 1.0", "", "MeasureX | 0", "MeasureP | 1"]
-    allx = EXPRS1 + EXPRS2 + EXPRS3 + FUNCS
+    allx = EXPRS1 + EXPRS2 + EXPRS3 + FUNCS + ZEROS
     for e in allx:
         S.append(hdr + ["Dgate(%s) | %%(m)s" % e])
         S.append(hdr + ["Dgate(%%(f)s, phi=%s) | %%(m)s" % e])
